@@ -49,6 +49,18 @@ CLAIMS = {
         "design_ref": "DESIGN.md section 4 C04",
         "note": "Not decided: the interpolation accuracy of the Toeplitz embedding. Unitary/isometry table is a list of mathematical facts in rules/c04.py; FFT unitarity relies on norm='ortho' (C05).",
     },
+    "C07": {
+        "engine": "E3 value numbering + kernel loop-nest summaries (kernelsum.py)",
+        "category": "other",
+        "technique": "static analysis: symbolic loop-nest summaries of the six numba kernels compared with the documented per-axis formula generated for rank 1-3 (window, weight product, wrapped index, accumulate), duality check, canonical-term comparison of the kernel functions and wrappers with their documented forms",
+        "text": "Decides for all six CPU kernels that the loop nest visits exactly the documented window ceil(c-W/2)..floor(c+W/2) on every axis, weights by the product of K((i-c)/(W/2), p) with the "
+                "axis' own coordinate/width/parameter, wraps each index by its own axis size at the right position, accumulates with +=, and that gridding is interpolate with source and target "
+                "exchanged (identical weights); the spline and Kaiser-Bessel functions equal their documented piecewise/polynomial forms including the coefficient table; the registry maps "
+                "names and ranks correctly; the wrappers flatten, broadcast, zero-initialise and reshape as documented. Holds for all coordinates, widths and data.",
+        "design_ref": "DESIGN.md section 4 C07",
+        "note": "CUDA kernels out of scope. numba is trusted to compile the Python kernels faithfully (np.ceil/floor, range, % semantics). The Bessel polynomial is compared as text-independent exact rationals; "
+                "its approximation quality is the cited reference's.",
+    },
     "C11": {
         "engine": "E6 paths, shape-provenance domain, E3 value numbering",
         "category": "other",
